@@ -118,6 +118,20 @@ func (h *hookBackend) BackendHandshakeAddr(def string, _ Player, _ RegisteredSer
 	return def, nil
 }
 
+func ctName(ct phase.ConnectionType) string {
+	switch ct {
+	case phase.Vanilla:
+		return "vanilla"
+	case phase.Undetermined17:
+		return "undetermined-1.7"
+	case phase.LegacyForge:
+		return "legacy-forge"
+	case phase.ModernForge:
+		return "modern-forge"
+	}
+	return "other"
+}
+
 func firstPart(s string) string { return strings.SplitN(s, "\x00", 2)[0] }
 
 func (c hsCase) String() string {
@@ -153,10 +167,10 @@ func check(r *vrt.R, c hsCase) {
 	case 2:
 		ct = phase.LegacyForge
 	}
-	r.Class("conn-type:" + fmt.Sprint(ct))
+	r.Class("conn-type:" + ctName(ct))
 	// the virtual host as a well-formed host:port address (IPv6 literals bracketed)
 	vh := clientAddr + ":25565"
-	if strings.Contains(clientAddr, ":") && !strings.Contains(clientAddr, "///") {
+	if strings.Contains(clientAddr, ":") {
 		vh = net.JoinHostPort(clientAddr, "25565")
 	}
 	cfg := &config.Config{Forwarding: config.Forwarding{Mode: c19Modes[c.Mode], BungeeGuardSecret: c19Secrets[c.Secret], VelocitySecret: "v"}}
@@ -233,7 +247,7 @@ func check(r *vrt.R, c hsCase) {
 		}
 		want := firstPart(clientAddr)
 		if got := firstPart(addr); got != want {
-			r.Violation("host-first/"+fmt.Sprint(ct), fmt.Sprintf("%s: backend handshake address %q starts with %q, the player's host is %q", c, addr, got, want), c)
+			r.Violation("host-first/"+ctName(ct), fmt.Sprintf("%s: backend handshake address %q starts with %q, the player's host is %q", c, addr, got, want), c)
 			return
 		}
 		if strings.Contains(clientAddr, "\x00") || hook != "none" {
